@@ -117,4 +117,40 @@ mod verif_kani {
     fn_total!(k_fn_total_empty, Function::Empty);
     fn_total!(k_fn_total_count, Function::Count);
     fn_total!(k_fn_total_in, Function::In);
+
+    /// randint(a, b) for every pair of f32 bit patterns (the generator state is concrete: seed 0)
+    #[kani::proof]
+    #[kani::unwind(6)]
+    #[kani::stub(alloc::fmt::format, fmt_stub)]
+    fn k_fn_total2_randint() {
+        let ctx = Ctx {
+            rng: RefCell::new(Pcg32::seed_from_u64(0)),
+        };
+        let mut es = EvalState::new(Vec::<Token>::new(), &ctx, &[]);
+        let args = ExprValue::List(vec![
+            ExprValue::Number(kani::any()),
+            ExprValue::Number(kani::any()),
+        ]);
+        let r = eval_function(Function::RandInt, &args, &mut es);
+        kani::cover!(r.is_ok(), "reaches an Ok result");
+        kani::cover!(r.is_err(), "reaches an Err result");
+        core::mem::forget(r);
+        core::mem::forget(args);
+    }
+
+    /// random() with a concrete generator state
+    #[kani::proof]
+    #[kani::unwind(6)]
+    #[kani::stub(alloc::fmt::format, fmt_stub)]
+    fn k_fn_total2_random() {
+        let ctx = Ctx {
+            rng: RefCell::new(Pcg32::seed_from_u64(0)),
+        };
+        let mut es = EvalState::new(Vec::<Token>::new(), &ctx, &[]);
+        let args = ExprValue::List(vec![]);
+        let r = eval_function(Function::Random, &args, &mut es);
+        kani::cover!(r.is_ok(), "reaches an Ok result");
+        core::mem::forget(r);
+        core::mem::forget(args);
+    }
 }
